@@ -65,7 +65,7 @@ def run_e2(res, tier):
         res.mark_nontrivial("%s|%s|%s|%s|%s|%s|%s" % (pid, h, tup, addr, fs, via, borrowed))
 
         def bad(what, cls):
-            res.violation({"kind": "remote", "cls": cls, "pid": pid, "handler": h, "via": via, "borrowed": borrowed, "addr": addr, "funds_seq": fs,
+            res.violation({"kind": "remote", "cls": cls, "pid": pid, "handler": h, "via": via, "borrowed": borrowed, "addr": addr, "funds_seq": fs, "native_128": any(model.has_wide_int(x) for x in tup) or any(a.ty in ("u128", "i128") for a in m.args),
                            "args": list(tup), "obs": o, "what": "%s %s via %s handle: %s" % (pid, h, via, what)})
         if "panic" in o:
             bad("panic: %s" % o["panic"], "panic")
